@@ -30,10 +30,10 @@ WORK = os.path.join(ROOT, ".work", "x02")
 
 def model(mode, maxlen, vals, dev=(), emit=False, inv=None):
     inv = inv or ("LawsParse" if mode == "parse" else "LawsRepr")
-    cfg = tlc.cfg_text(constants={"Mode": '"%s"' % mode, "MaxLen": str(maxlen), "Vals": tlc.tla(set(vals)),
-                                  "Dev": tlc.tla(set(dev)) if dev else "{}"},
-                       invariants=[inv], action_constraints=["Emit"] if emit else [])
-    return cfg
+    defs = {"Vals": "{" + ", ".join(str(x) for x in sorted(set(vals))) + "}"}       # negative numbers cannot stand in a cfg file
+    cfg = tlc.cfg_text(constants={"Mode": '"%s"' % mode, "MaxLen": str(maxlen), "Dev": tlc.tla(set(dev)) if dev else "{}"},
+                       defs=defs, invariants=[inv], action_constraints=["Emit"] if emit else [])
+    return cfg, defs
 
 
 # --------------------------------------------------------------------------------------- (A) array -> text
@@ -306,25 +306,30 @@ def _run_parse(idx, case):
 
 
 # --------------------------------------------------------------------------------------- driver
+def _tlc(ctx, m, **kw):
+    cfg, defs = m
+    return ctx.tlc(MODULE, cfg, defs=defs, **kw)
+
+
 def run(ctx):
     thorough = ctx.tier == "thorough"
     rl, rv = (7, range(0, 4)) if thorough else (5, range(0, 4))
     pl, pv = (3, range(0, 3)) if thorough else (2, range(0, 3))
     # stage M: laws, deviations, named deviation
     for dev in DEVS:
-        ctx.tlc(MODULE, model("repr", 6, range(0, 4), dev=[dev]), label=f"Dev.{dev}", expect_violation="LawsRepr", workers=4)
-    ctx.tlc(MODULE, model("repr", 5, range(0, 3), inv="LosslessAll"), label="ZeroStepForgetsLength (named deviation)",
+        _tlc(ctx, model("repr", 6, range(0, 4), dev=[dev]), label=f"Dev.{dev}", expect_violation="LawsRepr", workers=4)
+    _tlc(ctx, model("repr", 5, range(0, 3), inv="LosslessAll"), label="ZeroStepForgetsLength (named deviation)",
             expect_violation="LosslessAll", workers=4)
     # stage R (the emission runs check the laws as well)
-    r = ctx.tlc(MODULE, model("repr", rl, rv, emit=True), label=f"repr len<={rl}", coverage=True, timeout=3000)
+    r = _tlc(ctx, model("repr", rl, rv, emit=True), label=f"repr len<={rl}", coverage=True, timeout=3000)
     cases = [c for c in r.emitted if c["kind"] == "repr"]
     # arrays given by their differences: two and three adjacent long runs (up to 8 / 9 elements)
     dl, dv = (8, (-1, 0, 1, 2)) if thorough else (7, (0, 1, 2))
-    r = ctx.tlc(MODULE, model("reprd", dl, dv, emit=True), label=f"repr by differences, <={dl} over {dv}", coverage=True, timeout=3000)
+    r = _tlc(ctx, model("reprd", dl, dv, emit=True), label=f"repr by differences, <={dl} over {dv}", coverage=True, timeout=3000)
     cases += [c for c in r.emitted if c["kind"] == "repr"]
     if thorough:
         # a second alphabet with larger gaps (runs of runs)
-        r2 = ctx.tlc(MODULE, model("repr", 9, (0, 1, 3), emit=True), label="repr len<=9 over {0,1,3}", coverage=True, timeout=3000)
+        r2 = _tlc(ctx, model("repr", 9, (0, 1, 3), emit=True), label="repr len<=9 over {0,1,3}", coverage=True, timeout=3000)
         cases += [c for c in r2.emitted if c["kind"] == "repr"]
     # the specification's whole-array rendering (get_range_representation) comes with the case as `whole`
     res = pool_map(run_repr, cases, chunksize=max(1, len(cases) // 256))
@@ -333,10 +338,10 @@ def run(ctx):
         if d:
             ctx.violation(f"repr: {d}", {"kind": "repr", "case": c})
     ctx.sample({"repr": cases[len(cases) // 2]})
-    r = ctx.tlc(MODULE, model("parse", pl, pv, emit=True), label=f"parse items<={pl}", coverage=True, timeout=3000)
+    r = _tlc(ctx, model("parse", pl, pv, emit=True), label=f"parse items<={pl}", coverage=True, timeout=3000)
     pcases = [c for c in r.emitted if c["kind"] == "parse"]
     if thorough:
-        r2 = ctx.tlc(MODULE, model("parse", 2, range(0, 5), emit=True), label="parse items<=2 over 0..4", coverage=True, timeout=3000)
+        r2 = _tlc(ctx, model("parse", 2, range(0, 5), emit=True), label="parse items<=2 over 0..4", coverage=True, timeout=3000)
         pcases += [c for c in r2.emitted if c["kind"] == "parse"]
     if not thorough:
         # the quick tier replays a deterministic third of the cases, chosen by the seed, and half of the rejected ones
